@@ -1,9 +1,62 @@
+import Drx.Cast
+import Drx.CastSpec
 import Drx.Drv.Util
 namespace Drx.Drv.Cast
-open Drx Drx.Drv
+open Drx Drx.Drv Drx.Cast
 
-/-- commands of the `cast` family (stub: nothing implemented yet) -/
+def parseInts (s : String) : Option (List Int) :=
+  if s = "-" then some [] else (s.splitOn ",").mapM parseInt
+
+def parseBody (kind : String) (v : List Int) (tail : List Int) : Option Body :=
+  match kind, v with
+  | "bitmap", [a, b, c, d, e, f, g, h, i, j, k, l, m] =>
+    match tail with
+    | [] => some (.bitmap ⟨a, b, c, d, e, f, g, h, i, j, k, l, m, none⟩)
+    | [x, y] => some (.bitmap ⟨a, b, c, d, e, f, g, h, i, j, k, l, m, some (x, y)⟩)
+    | _ => none
+  | "field", [a, b, c, d, e, f, g, h, i, j, k, l, m, n, o, p, q, r, s, t, u] =>
+    some (.field ⟨a, b, c, d, e, f, g, h, i, j, k, l, m, n, o, p, q, r, s, t, u⟩)
+  | "palette", [] => some .palette
+  | "sound", [] => some .sound
+  | "button", [a, b, c, d, e, f, g, h, i, j, k, l, m, n, o, p, q, r, s] =>
+    some (.button ⟨a, b, c, d, e, f, g, h, i, j, k, l, m, n, o, p, q, r, s⟩)
+  | "shape", [a, b, c, d, e, f, g, h, i, j, k, l, m] => some (.shape ⟨a, b, c, d, e, f, g, h, i, j, k, l, m⟩)
+  | "script", [] => some .script
+  | "richText", [a, b, c, d, e, f, g, h, i, j, k, l] => some (.richText ⟨a, b, c, d, e, f, g, h, i, j, k, l⟩)
+  | "transition", [a, b, c, d] => some (.transition ⟨a, b, c, d⟩)
+  | _, _ => none
+
+def parseExtras (s : String) : Option (List Bytes) :=
+  if s = "." then some [] else (s.splitOn ";").mapM bytesOfHex
+
+def parseInfo (basic unknowns extras : String) : Option (Option Info) :=
+  if basic = "none" then some none else do
+    let b ← parseInts basic
+    let u ← parseInts unknowns
+    let e ← parseExtras extras
+    match b with
+    | [sk, bd1, bd2, si] => some (some ⟨sk, bd1, bd2, si, u, e⟩)
+    | _ => none
+
+def castJ (r : R CastData) : J := J.ofR CastData.toJ r
+
+/-- commands of the `cast` family (see harness/c15.py) -/
 def run : List String → Option String
+  | ["parse", codec, h] => do
+    let c ← Codec.ofName codec; let b ← bytesOfHex h
+    some (castJ (parseCast c b)).render
+  | ["spec", codec, kind, fields, tail, pad, basic, unknowns, extras] => do
+    -- the specification side: the Lean encoders of both layouts, the view, and whether the model maps the encodings to the view
+    let c ← Codec.ofName codec
+    let body ← parseBody kind (← parseInts fields) (← parseInts tail)
+    let pad ← bytesOfHex pad
+    let info ← parseInfo basic unknowns extras
+    let m : Member := ⟨body, pad, info⟩
+    let v := (castJ (view c m)).render
+    some (J.obj [("d4", J.hex (encD4 m)), ("d5", J.hex (encD5 m)), ("view", castJ (view c m)),
+                 ("valid", .bool (decide m.valid)),
+                 ("rt4", .bool ((castJ (parseCast c (encD4 m))).render == v)),
+                 ("rt5", .bool ((castJ (parseCast c (encD5 m))).render == v))]).render
   | _ => none
 
 end Drx.Drv.Cast
